@@ -168,20 +168,61 @@ def link_algebra(repo: Repo) -> RuleRun:
     _run(mk(), upd, [link])
     r.check(link.get("follower") == want and link.get("leader") == L2, upd, "update(): follower := transform(), leader untouched", f"LinkBase.update leaves follower={link.get('follower')!r}, leader={link.get('leader')!r}", upd.node, key="update")
 
-    # RotationLink: turns the original follower about its own axis/origin
+    # RotationLink: turns the ORIGINAL follower about the link's own axis/origin by the angle between the original and the current
+    # leader radius, signed by the axis - also when the two radii are parallel or opposite (no turn / half turn: their cross product
+    # vanishes). Abstract run of transform(); angle_between / cross / dot / norm are supplied by the scenario.
     rt = repo.func("optimize.links.RotationLink.transform")
-    rets = [n for n in walk_shallow(rt.node) if isinstance(n, ast.Return)]
-    r.require(len(rets) == 1 and isinstance(rets[0].value, ast.Call), "RotationLink.transform: 'return f.rotate(...)' not found")
-    args = [ast.unparse(a) for a in rets[0].value.args]
-    ok = (attr_chain(rets[0].value.func) or "").endswith("rotate") and len(args) == 4 and args[0] == "self.orig_follower_pos" and args[2] == "self.axis" and args[3] == "self.origin"
-    r.check(ok, rt, "rotate(original follower, angle, own axis, own origin)", f"RotationLink.transform returns {ast.unparse(rets[0].value)}: the ORIGINAL follower must be turned about the link's own axis and origin (turning the current follower compounds the rotation on every update)", rets[0], key="rotation:args")
+    rl = repo.cls("optimize.links.RotationLink")
+    for label, dot_sign, cross_norm, want_angle in (
+        ("leader turned counter-clockwise", 1, 1000, 5),
+        ("leader turned clockwise", -1, 1000, -5),
+        ("leader turned by half a turn (radii opposite, cross product zero)", 0, 0, 5),
+    ):
+        calls = []
+
+        def rhook(ev, call: ast.Call, name, calls=calls, dot_sign=dot_sign, cross_norm=cross_norm):
+            last = (name or "").split(".")[-1]
+            if last == "_get_radius":
+                return Sym(f"radius_of({ev.eval(call.args[0])!r})")
+            if last == "angle_between":
+                calls.append(("angle_between", [ev.eval(a_) for a_ in call.args]))
+                return 5
+            if last == "cross":
+                return Sym("CROSS")
+            if last == "dot":
+                return dot_sign
+            if last == "norm":
+                return cross_norm
+            if last == "rotate":
+                calls.append(("rotate", [ev.eval(a_) for a_ in call.args]))
+                return Sym("ROTATED")
+            return NO_MATCH
+
+        link = Obj("link", cls=rl)
+        link.set("leader", Sym("LEADER_NOW"))
+        link.set("follower", Sym("FOLLOWER_NOW"))
+        link.set("orig_leader_radius", Sym("ORIG_RADIUS"))
+        link.set("orig_follower_pos", Sym("ORIG_FOLLOWER"))
+        link.set("axis", Sym("AXIS"))
+        link.set("origin", Sym("ORIGIN"))
+        res = _run(Evaluator(repo=repo, module=rt.module, call_hook=rhook), rt, [link])
+        rot = [c for c in calls if c[0] == "rotate"]
+        ang = [c for c in calls if c[0] == "angle_between"]
+        ok = res == Sym("ROTATED") and len(rot) == 1 and rot[0][1] == [Sym("ORIG_FOLLOWER"), want_angle, Sym("AXIS"), Sym("ORIGIN")]
+        ok = ok and len(ang) == 1 and sorted(map(repr, ang[0][1])) == sorted(["ORIG_RADIUS", "radius_of(LEADER_NOW)"])
+        r.check(
+            ok,
+            rt,
+            f"{label}: rotate(original follower, {want_angle:+d}, own axis, own origin)",
+            f"RotationLink.transform, {label}: returns {res!r} after {calls}; expected the ORIGINAL follower turned by the angle between the original and the current leader radius "
+            f"({want_angle:+d} in this scenario) about the link's own axis and origin (turning the current follower compounds the rotation; skipping the rotation when the cross product "
+            "vanishes loses a half turn)",
+            rt.node,
+            key=f"rotation:{label.split(' (')[0]}",
+        )
     rinit = repo.func("optimize.links.RotationLink.__init__")
     cp = any(isinstance(n, ast.Assign) and ast.unparse(n.targets[0]) == "self.orig_follower_pos" and isinstance(n.value, ast.Call) and attr_chain(n.value.func) in ("np.copy", "np.array", "numpy.copy", "copy.copy", "copy.deepcopy") for n in walk_shallow(rinit.node))
     r.check(cp, rinit, "original follower stored as a copy", "RotationLink stores the original follower without copying it: update() overwrites it through the alias", rinit.node, key="rotation:copy")
-    # the angle is measured between the original and the current leader radius, signed by the axis
-    src = ast.unparse(rt.node)
-    ok = "self.orig_leader_radius" in src and "self._get_radius(self.leader)" in src and "np.dot(cross_rad, self.axis) < 0" in src.replace("(np.cross(prev_radius, this_radius))", "cross_rad")
-    r.check("self.orig_leader_radius" in src and "self._get_radius(self.leader)" in src, rt, "angle between original and current leader radius", "RotationLink.transform does not measure the angle between the original and the current leader radius", rt.node, key="rotation:angle")
     # SymmetryLink
     gf = repo.func("optimize.links.SymmetryLink._get_follower")
     rets = [n for n in walk_shallow(gf.node) if isinstance(n, ast.Return)]
